@@ -38,6 +38,9 @@ fn pack_coupon ( slot : u32 , value : u8 ) -> ( r : u32 ) ensures cslot ( r ) ==
 proof {
 assert ( ( ( ( ( value as u32 ) << 26u32 ) | ( slot & 0x3ffffffu32 ) ) & 0x3ffffffu32 ) == ( slot & 0x3ffffffu32 ) ) by ( bit_vector ) ;
 assert ( ( ( ( ( ( value as u32 ) << 26u32 ) | ( slot & 0x3ffffffu32 ) ) >> 26u32 ) as u8 ) == ( value & 63u8 ) ) by ( bit_vector ) ;
+let g_v = value as u32 ;
+let g_s = slot ;
+assert ( ( g_v << 26 ) | ( g_s & 0x3ffffff ) == ( g_s & 0x3ffffff ) | ( g_v << 26 ) && g_s & 0x3ffffff == 0x3ffffff & g_s && g_s & 0x3ffffff == g_s % 0x4000000 ) by ( bit_vector ) ;
 }
 ( ( value as u32 ) << KEY_BITS_26 ) | ( slot & KEY_MASK_26 ) }
 
